@@ -47,6 +47,12 @@ BOUND_FLOATS = [0.0, -0.0, 1.0, -1.0, 0.1, 1e-323, 5e-324, 2.2250738585072014e-3
 
 
 def gen_str(rng):
+    if rng.random() < 0.04:
+        return rng.choice(['NaN', 'Infinity', '-Infinity', 'null', 'true', 'nan', 'inf'])       # text that spells a JSON / float literal is text
+    return _gen_str(rng)
+
+
+def _gen_str(rng):
     return ''.join(rng.choice(CHARS) for _ in range(rng.choice([0, 1, 1, 2, 5, 12])))
 
 
